@@ -378,7 +378,7 @@ def run(ctx):
     if ctx.bin is None:
         ctx.missing('R19.1', 'anchor:bin', 'fst-bin facts missing')
         return
-    r19_1(ctx)
-    r19_2(ctx)
-    r19_3(ctx)
-    r19_4(ctx)
+    ctx.step(r19_1, ctx)
+    ctx.step(r19_2, ctx)
+    ctx.step(r19_3, ctx)
+    ctx.step(r19_4, ctx)
